@@ -338,6 +338,15 @@ Subprocess::Subprocess(Subprocess&& other)
 }
 
 Subprocess& Subprocess::operator=(Subprocess&& other) {
+  if (this == &other) {
+    return *this;
+  }
+  // The child this object was responsible for must not be left running or
+  // unreaped; end it the same way the destructor does
+  if (this->child_pid >= 0 && this->wait(true) == -1) {
+    this->kill(SIGKILL);
+    this->wait();
+  }
   this->stdin_write_fd = other.stdin_write_fd;
   this->stdout_read_fd = other.stdout_read_fd;
   this->stderr_read_fd = other.stderr_read_fd;
